@@ -113,5 +113,13 @@ func (f *File) BuildCatalog() (*Catalog, error) {
 		catalog.Namespaces[handle] = namespace
 	}
 
+	// the file does not record which events retention has removed from the
+	// oplog: assume that everything before the oldest stored event may have
+	// been removed, so that a stream that starts before it reports the loss
+	// instead of silently starting later
+	if oplog := catalog.Namespaces[Oplog]; oplog != nil && len(oplog.Documents.List) > 0 {
+		catalog.Trimmed = timestampBefore(eventTimestamp(oplog.Documents.List[0]))
+	}
+
 	return catalog, nil
 }
